@@ -8,14 +8,14 @@ open SonicSpec SonicSpec.Go SonicSpec.Enc SonicSpec.Json
 variable {o : EncOpts} {co : COpts}
 
 /-- the code of the type a pointer field points to, as a function of its start position -/
-def elemCode (co : COpts) (t : GoType) (sp : Nat) (pv : Bool) : Nat → Program :=
-  fun pc' => match t with | .ptr e => code co pc' sp pv e | _ => []
+def elemCode (co : COpts) (lib : LibCode) (tab : List GoType) (t : GoType) (sp : Nat) (pv : Bool) : Nat → Program :=
+  fun pc' => match t with | .ptr e => code co lib tab pc' sp pv e | _ => []
 
 /-- the value part of a field's code (compiler.go:506-510) -/
-def fieldValCode (co : COpts) (f : Field) (t : GoType) (sp : Nat) (pv : Bool) (vpc : Nat) : Program :=
+def fieldValCode (co : COpts) (lib : LibCode) (tab : List GoType) (f : Field) (t : GoType) (sp : Nat) (pv : Bool) (vpc : Nat) : Program :=
   if f.quoted then
-    strCode t (fun pc' => code co pc' sp pv t) (elemCode co t sp pv) vpc
-  else code co vpc sp pv t
+    strCode t (fun pc' => code co lib tab pc' sp pv t) (elemCode co lib tab t sp pv) vpc
+  else code co lib tab vpc sp pv t
 
 /-- what the specification writes for the member's value -/
 def fieldSpec (o : EncOpts) (addr : Bool) (f : Field) (t : GoType) (v : GoVal) : Except EErr JVal :=
@@ -30,13 +30,13 @@ theorem quotedVal_nonptr {t : GoType} (h : ∀ e, t ≠ .ptr e) (v : GoVal) : qu
 
 theorem regs_p_self (r : Regs) : ({ r with p := r.p } : Regs) = r := by cases r; rfl
 
-theorem fieldVal_ok {t : GoType} {v : GoVal} {f : Field} {addr fpv : Bool} {P : Program} {sp : Nat} {pv : Bool}
-    (hC : Conf t v = true) (hq : f.quoted = true → quotedOK t = true) (hns : (f.quoted && strLike t) = false)
+theorem fieldVal_ok {c0 : COpts} {t : GoType} {v : GoVal} {f : Field} {addr fpv : Bool} {P : Program} {sp : Nat} {pv : Bool} {lv : Nat} {tab : List GoType}
+    (hlv : libLeft tab ≤ lv) (hC : Conf c0 t v = true) (hq : f.quoted = true → quotedOK t = true) (hns : (f.quoted && strLike t) = false)
     (hv : CodeOK o co t v) (hw : ∀ e w, t = .ptr e → v = .ptr w → CodeOK o co e w)
-    (vpc : Nat) (r1 : Regs) (hg : r1.p.get = some v) (st : Stack) (b : Bytes) (hroom : st.length + need t ≤ maxStack)
-    (hat : At P vpc (fieldValCode co f t sp pv vpc)) :
+    (vpc : Nat) (r1 : Regs) (hg : r1.p.get = some v) (st : Stack) (b : Bytes) (hroom : st.length + needV t v ≤ maxStack)
+    (hat : At P vpc (fieldValCode co (libK co lv) tab f t sp pv vpc)) :
     (∀ j, fieldSpec o addr f t v = .ok j → ∀ res,
-        (∀ c', Halts o co fpv P (vpc + (fieldValCode co f t sp pv vpc).length) { r1 with p := c' } st (b ++ render j) res) →
+        (∀ c', Halts o co fpv P (vpc + (fieldValCode co (libK co lv) tab f t sp pv vpc).length) { r1 with p := c' } st (b ++ render j) res) →
         Halts o co fpv P vpc r1 st b res) ∧
     (∀ e, fieldSpec o addr f t v = .error e → e = .unsupportedValue ∧ Halts o co fpv P vpc r1 st b (.error (.enc e))) := by
   unfold fieldValCode elemCode at hat ⊢
@@ -44,7 +44,7 @@ theorem fieldVal_ok {t : GoType} {v : GoVal} {f : Field} {addr fpv : Bool} {P : 
   cases hfq : f.quoted with
   | false =>
     simp only [hfq, Bool.false_eq_true, if_false] at hat ⊢
-    obtain ⟨h1, h2⟩ := hv addr fpv P vpc sp pv r1 st b hat hg hroom
+    obtain ⟨h1, h2⟩ := hv lv tab hlv addr fpv P vpc sp pv r1 st b hat hg hroom
     refine ⟨fun j hj res h => h1 j hj res ?_, h2⟩
     exact halts_cast (h r1.p) rfl (regs_p_self r1).symm rfl rfl
   | true =>
@@ -57,7 +57,7 @@ theorem fieldVal_ok {t : GoType} {v : GoVal} {f : Field} {addr fpv : Bool} {P : 
       have hns' : isStrT e = false := by
         cases e <;> first | rfl | (simp [strLike] at hns)
       simp only [strCode, hst, hns', if_true, Bool.false_eq_true, if_false] at hat ⊢
-      generalize hc : code co (vpc + 3) sp pv e = c at hat ⊢
+      generalize hc : code co (libK co lv) tab (vpc + 3) sp pv e = c at hat ⊢
       have hA : At P vpc [Instr.isNil (vpc + 2 + ([Instr.byte 34] ++ c ++ [Instr.byte 34]).length + 1), Instr.deref] := hat.left.left
       have hI : At P (vpc + 2) ([Instr.byte 34] ++ c ++ [Instr.byte 34]) := At.right' hat.left (by simp)
       have hE : At P (vpc + 2 + ([Instr.byte 34] ++ c ++ [Instr.byte 34]).length)
@@ -77,8 +77,8 @@ theorem fieldVal_ok {t : GoType} {v : GoVal} {f : Field} {addr fpv : Bool} {P : 
         simp only [quotedVal]
         have hB : At P (vpc + 3) c := At.right' hI.left (by simp)
         have hQ : At P (vpc + 3 + c.length) [Instr.byte 34] := At.right' hI (by simp <;> omega)
-        obtain ⟨h1, h2⟩ := hw e w rfl rfl addr fpv P (vpc + 3) sp pv { r1 with p := .val w } st (b ++ [34]) (hc ▸ hB) rfl
-          (by simp only [need] at hroom; omega)
+        obtain ⟨h1, h2⟩ := hw e w rfl rfl lv tab hlv addr fpv P (vpc + 3) sp pv { r1 with p := .val w } st (b ++ [34]) (hc ▸ hB) rfl
+          (by simp only [needV] at hroom; omega)
         rw [hc] at h1
         have hql := quotedLeaf_eq (o := o) addr hst hns' hC
         constructor
@@ -121,9 +121,9 @@ theorem fieldVal_ok {t : GoType} {v : GoVal} {f : Field} {addr fpv : Bool} {P : 
       rw [quotedVal_nonptr hnp]
       simp only [hst, hns', if_true, Bool.false_eq_true, if_false] at hat ⊢
       have hA : At P vpc [Instr.byte 34] := hat.left.left
-      have hB : At P (vpc + 1) (code co (vpc + 1) sp pv t) := At.right' hat.left (by simp)
-      have hE : At P (vpc + 1 + (code co (vpc + 1) sp pv t).length) [Instr.byte 34] := At.right' hat (by simp <;> omega)
-      obtain ⟨h1, h2⟩ := hv addr fpv P (vpc + 1) sp pv r1 st (b ++ [34]) hB hg hroom
+      have hB : At P (vpc + 1) (code co (libK co lv) tab (vpc + 1) sp pv t) := At.right' hat.left (by simp)
+      have hE : At P (vpc + 1 + (code co (libK co lv) tab (vpc + 1) sp pv t).length) [Instr.byte 34] := At.right' hat (by simp <;> omega)
+      obtain ⟨h1, h2⟩ := hv lv tab hlv addr fpv P (vpc + 1) sp pv r1 st (b ++ [34]) hB hg hroom
       have hql := quotedLeaf_eq (o := o) addr hst hns' hC
       constructor
       · intro j hj res h
@@ -215,15 +215,15 @@ theorem tests_ok {v : GoVal} {fpv : Bool} {P : Program} (te : Option (Nat → In
         exact halts_step (hat.get 1 (by omega) rfl) (by rw [hz, hc.2]; rfl) h
 
 
-theorem fieldCode_eq (f : Field) (t : GoType) (sp : Nat) (pv : Bool) (i off pc : Nat) :
-    fieldCode co f t (fun pc' => code co pc' sp pv t) (elemCode co t sp pv) i off pc =
+theorem fieldCode_eq (lv : Nat) (tab : List GoType) (f : Field) (t : GoType) (sp : Nat) (pv : Bool) (i off pc : Nat) :
+    fieldCode co f t (fun pc' => code co (libK co lv) tab pc' sp pv t) (elemCode co (libK co lv) tab t sp pv) i off pc =
     if skipField f t then []
     else
       let te := omitTest co f t
       let vpc := pc + 1 + ((if te.isSome then 1 else 0) + (if f.omitZero then 1 else 0)) + 3
-      let done := vpc + (fieldValCode co f t sp pv vpc).length
+      let done := vpc + (fieldValCode co (libK co lv) tab f t sp pv vpc).length
       [Instr.index i off] ++ fieldTests te f.omitZero done ++ [Instr.condTestc (vpc - 1), Instr.byte 44, Instr.key f.name] ++
-        fieldValCode co f t sp pv vpc ++ [Instr.load] := by
+        fieldValCode co (libK co lv) tab f t sp pv vpc ++ [Instr.load] := by
   unfold fieldCode fieldTests fieldValCode elemCode
   rfl
 
@@ -242,20 +242,20 @@ theorem regs_load_cond (fr : Regs) (c : Bool) (p' : Cur) :
 def fieldSkip (f : Field) (t : GoType) (v : GoVal) : Bool := (f.omitEmpty && isEmptyV t v) || (f.omitZero && isZeroV v)
 
 /-- one iteration of the loop of compileStructBody -/
-theorem field_ok {f : Field} {t : GoType} {v : GoVal} {vs : List GoVal} {i off : Nat} {addr fpv : Bool} {P : Program} {sp : Nat} {pv : Bool}
-    (hnull : co.encOnlyOmitNull = false)
-    (hC : Conf t v = true) (hnz : (f.omitEmpty && negZero v) = false)
+theorem field_ok {f : Field} {t : GoType} {v : GoVal} {vs : List GoVal} {i off : Nat} {addr fpv : Bool} {P : Program} {sp : Nat} {pv : Bool} {lv : Nat} {tab : List GoType}
+    (hlv : libLeft tab ≤ lv) (hon : omitNullOK co f t v = true)
+    (hC : Conf co t v = true) (hnz : (f.omitEmpty && negZero v) = false)
     (hq : f.quoted = true → quotedOK t = true) (hns : (f.quoted && strLike t) = false)
     (hv : CodeOK o co t v) (hw : ∀ e w, t = .ptr e → v = .ptr w → CodeOK o co e w)
-    (fr : Regs) (hfr : fr.p.get = some (.st vs)) (hi : vs[i]? = some v) (s : Stack) (hroom : (fr :: s).length + need t ≤ maxStack)
+    (fr : Regs) (hfr : fr.p.get = some (.st vs)) (hi : vs[i]? = some v) (s : Stack) (hroom : (fr :: s).length + needV t v ≤ maxStack)
     (pc : Nat) (c : Bool) (b : Bytes)
-    (hat : At P pc (fieldCode co f t (fun pc' => code co pc' sp pv t) (elemCode co t sp pv) i off pc)) :
+    (hat : At P pc (fieldCode co f t (fun pc' => code co (libK co lv) tab pc' sp pv t) (elemCode co (libK co lv) tab t sp pv) i off pc)) :
     (fieldSkip f t v = true → ∀ res,
-      Halts o co fpv P (pc + (fieldCode co f t (fun pc' => code co pc' sp pv t) (elemCode co t sp pv) i off pc).length)
+      Halts o co fpv P (pc + (fieldCode co f t (fun pc' => code co (libK co lv) tab pc' sp pv t) (elemCode co (libK co lv) tab t sp pv) i off pc).length)
         { fr with cond := c } (fr :: s) b res → Halts o co fpv P pc { fr with cond := c } (fr :: s) b res) ∧
     (fieldSkip f t v = false →
       (∀ j, fieldSpec o addr f t v = .ok j → ∀ res,
-        Halts o co fpv P (pc + (fieldCode co f t (fun pc' => code co pc' sp pv t) (elemCode co t sp pv) i off pc).length)
+        Halts o co fpv P (pc + (fieldCode co f t (fun pc' => code co (libK co lv) tab pc' sp pv t) (elemCode co (libK co lv) tab t sp pv) i off pc).length)
           { fr with cond := false } (fr :: s) (b ++ ((if c then [] else [44]) ++ memb (nameKey o f.name, j))) res →
         Halts o co fpv P pc { fr with cond := c } (fr :: s) b res) ∧
       (∀ e, fieldSpec o addr f t v = .error e → e = .unsupportedValue ∧
@@ -277,7 +277,7 @@ theorem field_ok {f : Field} {t : GoType} {v : GoVal} {vs : List GoVal} {i off :
     simp only [hsk', Bool.false_eq_true, if_false] at hat ⊢
     generalize hte : omitTest co f t = te at hat ⊢
     generalize hvpc : pc + 1 + ((if te.isSome then 1 else 0) + (if f.omitZero then 1 else 0)) + 3 = vpc at hat ⊢
-    generalize hval : fieldValCode co f t sp pv vpc = val at hat ⊢
+    generalize hval : fieldValCode co (libK co lv) tab f t sp pv vpc = val at hat ⊢
     have htl := fieldTests_length te f.omitZero (vpc + val.length)
     -- the pieces
     have hI : At P pc [Instr.index i off] := hat.left.left.left.left
@@ -301,7 +301,8 @@ theorem field_ok {f : Field} {t : GoType} {v : GoVal} {vs : List GoVal} {i off :
       simp only [step]
     -- the tests decide `fieldSkip`
     have he : ∀ mk, te = some mk → ∀ pc r s b, r.p.get = some v →
-        step o (mk (vpc + val.length)) pc r s b = jumpIf (isEmptyV t v) (vpc + val.length) pc r s b := by
+        step o (mk (vpc + val.length)) pc r s b =
+          jumpIf (if co.encOnlyOmitNull then isNilV v else isEmptyV t v) (vpc + val.length) pc r s b := by
       intro mk hmk pc r s b hg
       rw [← hte] at hmk
       unfold omitTest at hmk
@@ -309,9 +310,14 @@ theorem field_ok {f : Field} {t : GoType} {v : GoVal} {vs : List GoVal} {i off :
       | false => rw [hom] at hmk; simp at hmk
       | true =>
         rw [hom] at hmk hnz
-        simp only [if_true, hnull, Bool.false_eq_true, if_false] at hmk
-        exact emptyTest_step hC (by simpa using hnz) hmk _ _ _ _ _ hg
-    have hskipEq : ((te.isSome && isEmptyV t v) || (f.omitZero && isZeroV v)) = fieldSkip f t v := by
+        cases hnull : co.encOnlyOmitNull with
+        | false =>
+          simp only [if_true, hnull, Bool.false_eq_true, if_false] at hmk ⊢
+          exact emptyTest_step hC (by simpa using hnz) hmk _ _ _ _ _ hg
+        | true =>
+          simp only [if_true, hnull] at hmk ⊢
+          exact nilTest_step hmk _ _ _ _ _ hg
+    have hskipEq : ((te.isSome && (if co.encOnlyOmitNull then isNilV v else isEmptyV t v)) || (f.omitZero && isZeroV v)) = fieldSkip f t v := by
       unfold fieldSkip
       congr 1
       rw [← hte]
@@ -319,11 +325,18 @@ theorem field_ok {f : Field} {t : GoType} {v : GoVal} {vs : List GoVal} {i off :
       cases hom : f.omitEmpty with
       | false => simp
       | true =>
-        simp only [if_true, hnull, Bool.false_eq_true, if_false, Bool.true_and]
-        cases hem : emptyTest t with
-        | some mk => simp
-        | none => simp [emptyTest_none hC hem hsk' hom]
-    obtain ⟨tskip, tkeep⟩ := tests_ok (o := o) (co := co) (fpv := fpv) (P := P) te f.omitZero (vpc + val.length) (pc + 1) (isEmptyV t v)
+        cases hnull : co.encOnlyOmitNull with
+        | false =>
+          simp only [if_true, Bool.false_eq_true, if_false, Bool.true_and]
+          cases hem : emptyTest t with
+          | some mk => simp
+          | none => simp [emptyTest_none hC hem hsk' hom]
+        | true =>
+          simp only [if_true, Bool.true_and]
+          unfold omitNullOK at hon
+          simp only [hnull, hom, hsk', Bool.not_true, Bool.false_or, beq_iff_eq] at hon
+          rw [hon]
+    obtain ⟨tskip, tkeep⟩ := tests_ok (o := o) (co := co) (fpv := fpv) (P := P) te f.omitZero (vpc + val.length) (pc + 1) (if co.encOnlyOmitNull then isNilV v else isEmptyV t v)
       { fr with cond := c, p := .val v } rfl (fr :: s) b he hT
     rw [hskipEq] at tskip tkeep
     constructor
@@ -350,7 +363,7 @@ theorem field_ok {f : Field} {t : GoType} {v : GoVal} {vs : List GoVal} {i off :
           refine halts_step (hM.get 1 (by omega) rfl) (by simp only [step]; rfl) ?_
           refine halts_step (hM.get 2 (by omega) rfl) (by simp only [step]; rfl) ?_
           exact halts_cast h (by omega) rfl rfl (by simp)
-      obtain ⟨vok, verr⟩ := fieldVal_ok (o := o) (co := co) (addr := addr) (fpv := fpv) (P := P) (sp := sp) (pv := pv) hC hq hns hv hw vpc
+      obtain ⟨vok, verr⟩ := fieldVal_ok (o := o) (co := co) (addr := addr) (fpv := fpv) (P := P) (sp := sp) (pv := pv) hlv hC hq hns hv hw vpc
         { fr with cond := false, p := .val v } rfl (fr :: s) (b ++ (if c then [] else [44]) ++ 34 :: (nameKey o f.name ++ [34, 58])) hroom (hval ▸ hV)
       rw [hval] at vok
       constructor
